@@ -57,11 +57,14 @@ SameNum(a, b) == a.k = "num" /\ a.fin /\ a.s = b.s /\ a.c = b.c /\ a.e = b.e
 Verdict(r) ==
   LET t == Denotes(r.text, r.v, r.hint, FALSE)
       j == Denotes(r.json, r.v, r.jhint, TRUE)
-  IN IF t # "ok" THEN "to_string: " \o t
+  IN IF "panic" \in DOMAIN r THEN "printing or reading the number panicked"
+     ELSE IF t # "ok" THEN "to_string: " \o t
      ELSE IF j # "ok" THEN "jsonify: " \o j
      ELSE IF ~SameNum(r.back, r.v) THEN "reading the printed text back does not give an equal number"
      ELSE IF "lit" \in DOMAIN r /\ ~SameNum(r.lit, r.v) THEN "the FEEL literal does not evaluate to the value it denotes"
      ELSE IF "xsd" \in DOMAIN r /\ ~SameNum(r.xsd, r.v) THEN "the xsd:decimal input text does not convert to the value it denotes"
+     ELSE IF "xsdd" \in DOMAIN r /\ ~SameNum(r.xsdd, r.v) THEN "the xsd:double input text does not convert to the value it denotes"
+     ELSE IF "xsdi" \in DOMAIN r /\ ~SameNum(r.xsdi, r.v) THEN "the xsd:integer input text does not convert to the value it denotes"
      ELSE "ok"
 
 VARIABLE i
